@@ -199,7 +199,14 @@ func (g *gen) genStatement(typ types.Type, this, that string) error {
 			p.P("}")
 			p.P("if %s != nil && %s != nil {", this, that)
 			p.In()
-			if err := g.genStatement(reftyp, thisref, thatref); err != nil {
+			if _, refIsPointer := reftyp.Underlying().(*types.Pointer); isNamed && refIsPointer {
+				// a named pointer type can point to itself (type P *P): its pointees are compared by their own function
+				fieldStr, err := g.field("("+thisref+")", "("+thatref+")", reftyp)
+				if err != nil {
+					return err
+				}
+				p.P("return " + fieldStr)
+			} else if err := g.genStatement(reftyp, thisref, thatref); err != nil {
 				return err
 			}
 			p.Out()
